@@ -248,6 +248,11 @@ def canon_bool(V, truth):
             op, a, b, truth = "Lt", b, a, not truth
         if op == "Eq" and a[0] == "const" and b[0] != "const":
             a, b = b, a
+        # x < 1 on the unsigned counters of this crate is x == 0 (and 0 < x is x != 0)
+        if op == "Lt" and b == ("const", 1) and a[0] != "const":
+            op, b = "Eq", ("const", 0)
+        elif op == "Lt" and a == ("const", 0) and b[0] != "const":
+            op, a, b, truth = "Eq", b, ("const", 0), not truth
         return (("cmp", op, a, b), truth)
     if V[0] == "call":
         cn = cname(V[1])
